@@ -171,6 +171,19 @@ def make_cfg(uid, gid, initgroups, timeout=None):
     cfg = Config()
     if timeout is not None:
         cfg.set("timeout", timeout)        # 0: the documented "no worker timeout"; the workers still heartbeat
+    # heartbeat files go to a scratch directory any user may write to (a master that fails to hand the file over leaves
+    # it behind)
+    wtmp = os.path.join(SCRATCH, "wtmp")
+    if not os.path.isdir(wtmp):
+        os.makedirs(wtmp, exist_ok=True)
+        os.chmod(wtmp, 0o1777)
+    for d_ in (SCRATCH, os.path.dirname(SCRATCH)):
+        try:
+            if os.stat(d_).st_mode & 0o005 != 0o005:
+                os.chmod(d_, os.stat(d_).st_mode | 0o755)
+        except OSError:
+            pass
+    cfg.set("worker_tmp_dir", wtmp)
     cfg.set("user", uid)
     cfg.set("group", gid)
     cfg.set("initgroups", initgroups)
